@@ -90,6 +90,7 @@ fn check_case(case: &Value, style: usize) -> Option<Value> {
     let handled = Arc::new(AtomicUsize::new(0));
     let mut counters = vec![];
     let mut flushes = vec![];
+    let mut real: Vec<(usize, usize)> = vec![];
     let mut b = log4rs::Config::builder();
     for (a, chain) in &chains {
         let n = Arc::new(AtomicUsize::new(0));
@@ -99,14 +100,27 @@ fn check_case(case: &Value, style: usize) -> Option<Value> {
         // the chain is declared through the builder in varying styles: filter() one by one, filters() at
         // once, or a mixture - the declaration order is what counts
         let mut ab = log4rs::config::Appender::builder();
+        // some Neutral / Reject positions are the real ThresholdFilter (neutral at Info: threshold info or trace;
+        // rejecting: threshold error or warn) - they record no call, so those positions are left out of the
+        // consultation comparison; what they answer still decides the deliveries
         let fs: Vec<Box<dyn Filter>> = chain
             .as_array()
             .unwrap()
             .iter()
             .enumerate()
             .map(|(i, r)| {
-                Box::new(ScriptedFilter { app: *a, idx: i + 1, resp: r.as_str().unwrap().chars().next().unwrap(), calls: calls.clone() })
-                    as Box<dyn Filter>
+                let resp = r.as_str().unwrap().chars().next().unwrap();
+                if resp != 'A' && (style / 12 + *a + i) % 3 == 0 {
+                    real.push((*a, i + 1));
+                    let lvl = match (resp, (style + i) % 2) {
+                        ('N', 0) => log::LevelFilter::Info,
+                        ('N', _) => log::LevelFilter::Trace,
+                        (_, 0) => log::LevelFilter::Error,
+                        _ => log::LevelFilter::Warn,
+                    };
+                    return Box::new(log4rs::filter::threshold::ThresholdFilter::new(lvl)) as Box<dyn Filter>;
+                }
+                Box::new(ScriptedFilter { app: *a, idx: i + 1, resp, calls: calls.clone() }) as Box<dyn Filter>
             })
             .collect();
         match (style + *a) % 4 {
@@ -170,8 +184,13 @@ fn check_case(case: &Value, style: usize) -> Option<Value> {
     let calls = calls.lock().unwrap();
     for (a, _) in &chains {
         let got: Vec<usize> = calls.iter().filter(|c| c.0 == *a).map(|c| c.1).collect();
-        let want: Vec<usize> =
-            at(&case["consulted"], *a).as_array().unwrap().iter().map(|v| v.as_u64().unwrap() as usize).collect();
+        let want: Vec<usize> = at(&case["consulted"], *a)
+            .as_array()
+            .unwrap()
+            .iter()
+            .map(|v| v.as_u64().unwrap() as usize)
+            .filter(|i| !real.contains(&(*a, *i)))
+            .collect();
         if got != want {
             return Some(json!({"what": "filters consulted", "appender": a, "expected": want, "actual": got}));
         }
